@@ -132,6 +132,25 @@ def gen_script(ctx, cplx=False):
         if r.chance(1, 3) and len(m) >= 2:
             m[1] = m[0]
         lines.append("prod Q%d %s %s" % (t, cv(coef(r)), mono_str(m)))
+    # 2b. wide Fock spaces (7..64 modes): the Jordan-Wigner string must count occupied modes of any index; kets with
+    #     high bits set, operators on high indices (matrix oracles are dense and stop at 6 modes; here the action on
+    #     single kets is compared with the sparse Jordan-Wigner action)
+    for t in range(150 if thorough else 40):
+        M = r.choice([r.range(7, 33), r.range(34, 64), r.range(34, 64), 64, 33, 32])
+        nm = "W%d" % t
+        ts = []
+        for _ in range(r.range(1, 3)):
+            n = r.range(1, 4)
+            m = [(r.below(2), r.choice([r.below(M), M - 1 - r.below(min(M, 8))])) for _ in range(n)]
+            ts.append("%s %s" % (cv(coef(r)), mono_str(m)))
+        lines.append("def %s %d %s" % (nm, len(ts), " ".join(ts)))
+        for _ in range(6):
+            ket = r.next() & ((1 << M) - 1)
+            if r.chance(1, 3):
+                ket |= r.next() & ((1 << M) - 1)           # densely occupied
+            lines.append("act %s %d %d" % (nm, M, ket))
+            if r.chance(1, 3):
+                lines.append("nop %d %d" % (M, ket))
     # 3. equality corner cases (prefix monomials), N and Sz
     lines += ["def X1 1 %s 1 0 0" % cv(1.0), "def X2 1 %s 2 0 0 1 1" % cv(1.0), "eq X1 X2", "eq X2 X1",
               "def X3 2 %s 1 0 0 %s 1 0 0" % (cv(1.0), cv(-1.0)), "def X4 0", "eq X3 X4",
@@ -188,10 +207,11 @@ def correspondence(ctx):
                 + [l for l in obs if l.startswith("o commutes")][:1]
         rc2, dout = pmlib.run_driver("opalg", out, timeout=3000)
         seen = 0
+        seenp = 0
         for l in dout.splitlines():
             if l.startswith("PROPFAIL"):
-                seen += 1
-                if seen <= 5:
+                seenp += 1
+                if seenp <= 5:
                     ctx.problem("propfail", l, harness="opalg", variant=variant,
                                 stdin=replay_script(cmds, l), signature="opalg-" + " ".join(l.split()[1:2]))
             elif l.startswith("MISMATCH"):
